@@ -5,7 +5,12 @@ set -u
 cd "$(dirname "$0")"
 export GOFLAGS=-mod=mod GOPROXY=off GOSUMDB=off GOTOOLCHAIN=local
 mkdir -p bin .build .run evidence replays
-if ! go build -o bin/vcheck ./cmd/vcheck 2>.build/vcheck.build.log; then
+ok=0
+for attempt in 1 2 3 4; do
+  if go build -o bin/vcheck ./cmd/vcheck 2>.build/vcheck.build.log; then ok=1; break; fi
+  sleep $((attempt * 5))   # a build cache that is being trimmed concurrently fails builds spuriously
+done
+if [ $ok -ne 1 ]; then
   cat .build/vcheck.build.log >&2
   echo "INCONCLUSIVE reason=driver-build-failed"
   exit 2
